@@ -410,7 +410,7 @@ HOSTILE_TITLES = ["It's", 'Say "hi"', '{0} {x} {}', "a'''b", 'back\\slash', 'q""
 HOSTILE_TEXTS = ["it's", 'say "hi"', '{name}', '}}', '{', "'quoted'", "'", '\\', 'a\\nb', 'line\nbreak', "''' + __import__('os').getcwd() + '''",
                  '"); import os; ("', '%s %(x)s', 'é ü 日本', '\\x41', 'eval(1)', "'=A1+1", '{{}}', '#{x}', 'tab\there']
 # string literals of a formula cannot hold a double quote; everything else must come back unchanged
-HOSTILE_LITERALS = ["it's", '{name}', '}}', "'", '\\', 'a\\nb', "''' + 1 + '''", '%s', 'é ü', '{0}', "x'); import os; ('", 'C:\\new\\table']
+HOSTILE_LITERALS = ["it's", '{name}', '}}', "'", '\\', 'a\\nb', "''' + 1 + '''", '%s', 'é ü', '{0}', "x'); import os; ('", 'C:\\new\\table', 'C:\\отчёты\\new', 'ü\\n']
 
 
 def hostile_obligations(run: Run, rule: str, src, g):
@@ -421,7 +421,7 @@ def hostile_obligations(run: Run, rule: str, src, g):
     sys.setrecursionlimit(max(old, 120000))
     try:
         rows0 = [[t] for t in HOSTILE_TEXTS]
-        rows1 = [[f'="{lit}"', f'="<"&"{lit}"&">"'] for lit in HOSTILE_LITERALS]
+        rows1 = [[f'="{lit}"', f'="<"&"{lit}"&">"', f'=CONCATENATE("{lit}";"c";"d")', f'=CONCATENATE("c";"{lit}")'] for lit in HOSTILE_LITERALS]
         sheets = [(HOSTILE_TITLES[0], rows0), (HOSTILE_TITLES[1], rows1)] + [(t, [[1]]) for t in HOSTILE_TITLES[2:]]
         try:
             pl = Pipeline(src, g)
@@ -465,14 +465,13 @@ def hostile_obligations(run: Run, rule: str, src, g):
                 raise AnalysisError(rule, f'hostile constant {t!r}: the abstraction cannot follow the generated class ({str(u)[:120]})')
             run.check(got == t, rule, f'hostile workbook/constant {t!r}', 'constant-text', f'the constant text {t!r} evaluates to {got!r}', fact='unchanged', loc=loc)
         for r, lit in enumerate(HOSTILE_LITERALS):
-            for c, want in ((0, lit), (1, '<' + lit + '>')):
+            for c, want in ((0, lit), (1, '<' + lit + '>'), (2, lit + 'cd'), (3, 'c' + lit)):
                 try:
                     got = value(uids[(1, c, r)])
                 except Unknown as u:
                     raise AnalysisError(rule, f'hostile literal {lit!r}: the abstraction cannot follow the generated class ({str(u)[:120]})')
                 run.check(got == want, rule, f'hostile workbook/literal {lit!r}/{c}', 'literal-text',
-                          f'the formula {"=" + chr(34) + lit + chr(34) if c == 0 else "=" + chr(34) + "<" + chr(34) + "&" + chr(34) + lit + chr(34) + "&" + chr(34) + ">" + chr(34)} '
-                          f'evaluates to {got!r}; the literal denotes {want!r}', fact='unchanged', loc=loc)
+                          f'the formula {rows1[r][c]} evaluates to {got!r}; the literals denote {want!r}', fact='unchanged', loc=loc)
     finally:
         sys.setrecursionlimit(old)
 
